@@ -62,6 +62,9 @@ def generate(rng, tier: str, index: int) -> dict:
         'ka_delay': round(rng.choice([0.0, 0.0, 0.0, 1.0, 0.4 * h, 0.6 * h]), 2) if h else 0.0,
         # `local-as auto`: exabgp answers the peer's OPEN instead of sending first; the timers must be the same
         'local_auto': rng.chance(0.15),
+        # a first, short session negotiated with another hold time (the peer changed its configuration in between): the timers of
+        # the judged session are those of its own negotiation
+        'warmup_hold': rng.choice([None, None, None, 0, 3, 9, 180]),
     }  # fmt: skip
 
 
@@ -80,6 +83,9 @@ def execute(plan: dict) -> dict:
     spk = Speaker(w, 'p1', PEER, 65002, PEER, LOCAL, hold=hs, caps=speaker_caps({'asn': 65002}))
     spk.periodic_keepalive = False
     rx_done: list[float] = []  # delivery time (to exabgp's socket) of the last byte of each complete message we sent
+    warm = plan.get('warmup_hold') is not None and plan['mode'] != 'openwait'
+    if warm:
+        spk.hold = plan['warmup_hold']
     if plan.get('ka_delay'):
         spk.auto_keepalive = False
 
@@ -88,7 +94,8 @@ def execute(plan: dict) -> dict:
                 if sess.state != 'closed' and sess.sent_open and not sess.sent_ka:
                     sess.sent_ka = True
                     sess.send(R.keepalive(), cuts=[])
-                    rx_done.append(sess.conn._to_exa_last)
+                    if not (warm and sess.index == 0):
+                        rx_done.append(sess.conn._to_exa_last)
 
             w.after(plan['ka_delay'], later)
 
@@ -150,6 +157,15 @@ def execute(plan: dict) -> dict:
     def on_session(sess) -> None:
         if st['sess'] is not None:
             return
+        if warm and sess.index == 0:
+            # the warm-up session: established, then reset by the peer, which comes back with the hold time of the plan
+            def end_warmup() -> None:
+                spk.hold = hs
+                if sess.state != 'closed':
+                    sess.reset()
+
+            w.after(3.0 + plan.get('ka_delay', 0.0), end_warmup)
+            return
         st['sess'] = sess
         st['connected_at'] = w.loop.mono
         if plan['mode'] == 'openwait':
@@ -165,6 +181,9 @@ def execute(plan: dict) -> dict:
             w.after(max(0.05, d), late_open)
 
     def on_established(sess) -> None:
+        if warm and sess.index == 0:
+            probes['warmup_sessions'] = probes.get('warmup_sessions', 0) + 1
+            return
         if sess is not st['sess']:
             return
         if not plan.get('ka_delay'):
@@ -196,7 +215,7 @@ def execute(plan: dict) -> dict:
     spk.on_established.append(on_established)
     spk.on_closed.append(on_closed)
 
-    total = sum(s['gap'] for s in plan['script']) + (H or 10) + 8.0 + stall_total + plan['openwait'] + 5
+    total = sum(s['gap'] for s in plan['script']) + (H or 10) + 8.0 + stall_total + plan['openwait'] + 5 + (40.0 if warm else 0.0)
     w.run(until=total + 5.0)
 
     violations = judge(plan, w, spk, st, rx_done, H, stall_total, probes)
